@@ -98,14 +98,14 @@ func genC18(rt *rapid.T) C18Case {
 		c.TagSets = append(c.TagSets, genTagSet(rt))
 	}
 	if c.Mode == "identity" {
-		c.Ops = rapid.SliceOfN(rapid.Custom(func(rt *rapid.T) C18Op { return genC18Op(rt, &c, true) }), 1, 30).Draw(rt, "ops")
+		c.Ops = rapid.SliceOfN(rapid.Custom(func(rt *rapid.T) C18Op { return genC18Op(rt, &c, true) }), 1, tierN(30, 80)).Draw(rt, "ops")
 		return c
 	}
 	nc := rapid.IntRange(2, 4).Draw(rt, "nclients")
 	for i := 0; i < nc; i++ {
-		c.Clients = append(c.Clients, rapid.SliceOfN(rapid.Custom(func(rt *rapid.T) C18Op { return genC18Op(rt, &c, false) }), 1, 7).Draw(rt, "client"))
+		c.Clients = append(c.Clients, rapid.SliceOfN(rapid.Custom(func(rt *rapid.T) C18Op { return genC18Op(rt, &c, false) }), 1, tierN(7, 12)).Draw(rt, "client"))
 	}
-	c.Schedule = rapid.SliceOfN(rapid.Uint16Range(0, 3), 0, 160).Draw(rt, "schedule")
+	c.Schedule = rapid.SliceOfN(rapid.Uint16Range(0, 3), 0, tierN(160, 400)).Draw(rt, "schedule")
 	return c
 }
 
